@@ -33,8 +33,8 @@ func main() {
 
 type pkgFacts struct {
 	evict, getMoves, peekMoves, siaMoves, updChecks string // Lean literals
-	facts                                              [10]bool
-	notes                                              []string
+	facts                                           [10]bool
+	notes                                           []string
 }
 
 var publicLocked = []string{"Get", "Peek", "Exist", "Set", "SetAndGetRemoved", "SetIfAbsent", "Delete", "Clear",
@@ -181,22 +181,25 @@ func pSizeKernel(repo, dir, name string) (string, error) {
 	if fd == nil || fd.Body == nil {
 		return "", fmt.Errorf("%s: newWideLRUCache not found", dir)
 	}
-	var stmt string
+	// the statements that compute pSize: everything between `w.ls = make(…)` and the loop that builds the shards
+	var stmts []string
+	state := 0
 	for _, st := range fd.Body.List {
-		if ds, ok := st.(*ast.DeclStmt); ok {
-			s := c17syn.Print(w.Fset, ds)
-			if strings.HasPrefix(s, "var pSize") {
-				stmt = s
-			}
-		}
-		if as, ok := st.(*ast.AssignStmt); ok && len(as.Lhs) == 1 {
-			if id, ok := as.Lhs[0].(*ast.Ident); ok && id.Name == "pSize" {
-				stmt = c17syn.Print(w.Fset, as)
+		src := w.Src(st)
+		switch {
+		case state == 0 && strings.HasPrefix(src, "w.ls = make("):
+			state = 1
+		case state == 1:
+			if _, isFor := st.(*ast.ForStmt); isFor {
+				state = 2
+			} else {
+				stmts = append(stmts, c17syn.Print(w.Fset, st))
 			}
 		}
 	}
-	if stmt == "" {
-		return "", fmt.Errorf("%s: no definition of pSize in newWideLRUCache", dir)
+	stmt := strings.Join(stmts, "\n")
+	if state != 2 || len(stmts) == 0 || !strings.Contains(stmt, "pSize") {
+		stmt = ""
 	}
 	// parameter types are read from the declarations: `capacity` from the signature, `numbs` from remap.(*ReMap).Numbs
 	capT := ""
@@ -216,7 +219,7 @@ func pSizeKernel(repo, dir, name string) (string, error) {
 	if capT == "" || numbsT == "" || !gofacts.Has(w.Src(fd.Body), "var numbs = w.rehash.Numbs()") {
 		return "", fmt.Errorf("%s: cannot type the operands of pSize", dir)
 	}
-	lean, errs := c17syn.Translate(nil, []c17syn.Func{{Name: name, Params: "capacity " + capT + ", numbs " + numbsT, Result: "int64", Body: stmt + "\nreturn pSize"}})
+	lean, errs := c17syn.Translate([]string{"math"}, []c17syn.Func{{Name: name, Params: "capacity " + capT + ", numbs " + numbsT, Result: "int64", Body: stmt + "\nreturn pSize"}})
 	if e := errs[name]; e != nil {
 		return "", e
 	}
